@@ -2,5 +2,8 @@
 # runs every claimed check (quick by default): ./runall.sh [quick|thorough] [parallelism]
 cd "$(dirname "$0")" || exit 2
 TIER=${1:-quick}; PAR=${2:-4}
+LOGD=$(mktemp -d "${TMPDIR:-/tmp}/verif_run.XXXXXX") || exit 2
+export LOGD
+trap 'rm -rf "$LOGD"' EXIT
 python3 -c "import json; print('\n'.join(c['property_id'] for c in json.load(open('MANIFEST.json'))['checks']))" |
-  xargs -P "$PAR" -I{} sh -c "./check {} --tier $TIER > /tmp/verif_run_{}.log 2>&1; echo {} exit=\$? \$(tail -1 /tmp/verif_run_{}.log)"
+  xargs -P "$PAR" -I{} sh -c "./check {} --tier $TIER > $LOGD/{}.log 2>&1; echo {} exit=\$? \$(tail -1 $LOGD/{}.log)"
